@@ -1,14 +1,129 @@
 import Pamqp.Spec.Defs
 import Pamqp.Proofs.Bytes
 import Pamqp.Proofs.Utf8
+import Pamqp.Proofs.RoundTrip
 /-! # Per-type round trip of `encode.by_type` / `decode.by_type` on accepted argument values -/
 namespace Pamqp.Proofs
 open Pamqp
+open Pamqp.Proofs.RoundTrip
+set_option linter.unusedSimpArgs false
+
+theorem byType_octet (i : Int) (h0 : 0 ≤ i) (h1 : i ≤ 255) (rest : Bytes) :
+    ∃ e, Encode.octet (.int i) = .ok e ∧ e.length = 1 ∧ Decode.octet (e ++ rest) = .ok (e.length, .int i) := by
+  obtain ⟨bs, hp, hl, hd⟩ := packU_rt 1 255 i h0 h1 (by decide)
+  have : ((i.toNat : Nat) : Int) = i := by omega
+  exact ⟨bs, hp, hl,
+    by simp only [Decode.octet, hd, bind, Except.bind, pure, Except.pure, this, hl]⟩
+
+theorem byType_short (i : Int) (h0 : 0 ≤ i) (h1 : i ≤ 65535) (rest : Bytes) :
+    ∃ e, Encode.shortUint (.int i) = .ok e ∧ e.length = 2 ∧
+      Decode.shortUint (e ++ rest) = .ok (e.length, .int i) := by
+  obtain ⟨bs, hp, hl, hd⟩ := packU_rt 2 65535 i h0 h1 (by decide)
+  have : ((i.toNat : Nat) : Int) = i := by omega
+  exact ⟨bs, by rw [Encode.shortUint, guardedInt_int _ _ _ i h0 h1]; exact hp, hl,
+    by simp only [Decode.shortUint, hd, bind, Except.bind, pure, Except.pure, this, hl]⟩
+
+theorem byType_long (i : Int) (h0 : 0 ≤ i) (h1 : i ≤ 4294967295) (rest : Bytes) :
+    ∃ e, Encode.longUint (.int i) = .ok e ∧ e.length = 4 ∧
+      Decode.longUint (e ++ rest) = .ok (e.length, .int i) := by
+  obtain ⟨bs, hp, hl, hd⟩ := packU_rt 4 4294967295 i h0 h1 (by decide)
+  have : ((i.toNat : Nat) : Int) = i := by omega
+  exact ⟨bs, by rw [Encode.longUint, guardedInt_int _ _ _ i h0 h1]; exact hp, hl,
+    by simp only [Decode.longUint, hd, bind, Except.bind, pure, Except.pure, this, hl]⟩
+
+theorem byType_longlong (i : Int) (h0 : -9223372036854775808 ≤ i) (h1 : i ≤ 9223372036854775807)
+    (rest : Bytes) :
+    ∃ e, Encode.longLongInt (.int i) = .ok e ∧ e.length = 8 ∧
+      Decode.longLongInt (e ++ rest) = .ok (e.length, .int i) := by
+  obtain ⟨bs, hp, hl, hd⟩ := packS_rt 8 (by omega) (-9223372036854775808) 9223372036854775807 i h0 h1
+    (by decide) (by decide)
+  exact ⟨bs, by rw [Encode.longLongInt, guardedInt_int _ _ _ i h0 h1]; exact hp, hl,
+    by simp only [Decode.longLongInt, hd, bind, Except.bind, pure, Except.pure, hl]⟩
+
+theorem byType_table_none (rest : Bytes) :
+    Decode.fieldTableTop ([0, 0, 0, 0] ++ rest) = .ok (4, .dict []) := by
+  have d1 : unpackU 4 ([0, 0, 0, 0] ++ rest) = .ok 0 := by
+    rw [unpackU_append 4 [0, 0, 0, 0] rest rfl]; rfl
+  have key : ∀ n, Decode.fieldTable (n + 2) ([0, 0, 0, 0] ++ rest) = .ok (4, .dict []) := by
+    intro n
+    rw [Decode.fieldTable]
+    simp only [d1, bind, Except.bind]
+    exact tblLoop_done _ _ _ _ _ (by omega)
+  obtain ⟨n, hn⟩ : ∃ n, Decode.fuelFor (([0, 0, 0, 0] : Bytes) ++ rest) = n + 2 :=
+    ⟨2 * (([0, 0, 0, 0] : Bytes) ++ rest).length + 2, by unfold Decode.fuelFor; omega⟩
+  rw [Decode.fieldTableTop, hn]
+  exact key n
 
 theorem byType_roundtrip (legacy : Bool) (ty : WireTy) (v : PyVal) (hty : ty ≠ .bit)
     (h : Spec.argOK legacy ty v) (rest : Bytes) (off : Nat) :
     ∃ e, Encode.byType legacy v ty = .ok e ∧ e.length = Spec.argSize legacy ty v ∧
       Decode.byType (e ++ rest) ty off = .ok (e.length, Spec.normArg ty v) := by
-  sorry
+  cases ty with
+  | bit => exact absurd rfl hty
+  | unknown => cases v <;> exact absurd h (by simp [Spec.argOK])
+  | octet =>
+    cases v <;> try (simp [Spec.argOK] at h; done)
+    case int i =>
+      have h' : 0 ≤ i ∧ i ≤ 255 := by simpa [Spec.argOK] using h
+      obtain ⟨e, he, hl, hd⟩ := byType_octet i h'.1 h'.2 rest
+      exact ⟨e, by simpa [Encode.byType] using he, by simp [Spec.argSize, hl],
+        by simpa [Decode.byType, Spec.normArg] using hd⟩
+  | short =>
+    cases v <;> try (simp [Spec.argOK] at h; done)
+    case int i =>
+      have h' : 0 ≤ i ∧ i ≤ 65535 := by simpa [Spec.argOK] using h
+      obtain ⟨e, he, hl, hd⟩ := byType_short i h'.1 h'.2 rest
+      exact ⟨e, by simpa [Encode.byType] using he, by simp [Spec.argSize, hl],
+        by simpa [Decode.byType, Spec.normArg] using hd⟩
+  | long =>
+    cases v <;> try (simp [Spec.argOK] at h; done)
+    case int i =>
+      have h' : 0 ≤ i ∧ i ≤ 4294967295 := by simpa [Spec.argOK] using h
+      obtain ⟨e, he, hl, hd⟩ := byType_long i h'.1 h'.2 rest
+      exact ⟨e, by simpa [Encode.byType] using he, by simp [Spec.argSize, hl],
+        by simpa [Decode.byType, Spec.normArg] using hd⟩
+  | longlong =>
+    cases v <;> try (simp [Spec.argOK] at h; done)
+    case int i =>
+      have h' : -9223372036854775808 ≤ i ∧ i ≤ 9223372036854775807 := by simpa [Spec.argOK] using h
+      obtain ⟨e, he, hl, hd⟩ := byType_longlong i h'.1 h'.2 rest
+      exact ⟨e, by simpa [Encode.byType] using he, by simp [Spec.argSize, hl],
+        by simpa [Decode.byType, Spec.normArg] using hd⟩
+  | shortstr =>
+    cases v <;> try (simp [Spec.argOK] at h; done)
+    case str s =>
+      have h' : (utf8Encode s).isSome ∧ Spec.utf8Len s ≤ 255 := by simpa [Spec.argOK] using h
+      obtain ⟨e, he, hl, hd⟩ := shortString_rt s h'.1 h'.2
+      exact ⟨e, by simpa [Encode.byType] using he, by simp [Spec.argSize, hl],
+        by simpa [Decode.byType, Spec.normArg] using hd rest⟩
+  | longstr =>
+    cases v <;> try (simp [Spec.argOK] at h; done)
+    case str s =>
+      have h' : (utf8Encode s).isSome ∧ Spec.utf8Len s < 2 ^ 32 := by simpa [Spec.argOK] using h
+      obtain ⟨e, he, hl, hd⟩ := longString_rt s h'.1 h'.2
+      exact ⟨e, by simpa [Encode.byType] using he, by simp [Spec.argSize, hl],
+        by simpa [Decode.byType, Spec.normArg] using hd rest⟩
+  | table =>
+    cases v <;> try (simp [Spec.argOK] at h; done)
+    case none =>
+      exact ⟨[0, 0, 0, 0], by simp [Encode.byType, Encode.fieldTable], by simp [Spec.argSize],
+        by simpa [Decode.byType, Spec.normArg] using byType_table_none rest⟩
+    case dict kvs =>
+      have h' : Spec.Encodable legacy (.dict kvs) := by simpa [Spec.argOK] using h
+      obtain ⟨e, he, hl, hd⟩ := table_roundtrip legacy kvs h' rest
+      exact ⟨e, by simpa [Encode.byType] using he, by simp [Spec.argSize, hl],
+        by simpa [Decode.byType, Spec.normArg] using hd⟩
+  | timestamp =>
+    cases v <;> try (simp [Spec.argOK] at h; done)
+    case datetime m tz =>
+      have h' : Spec.Encodable legacy (.datetime m tz) := by simpa [Spec.argOK] using h
+      obtain ⟨e, he, hl, hd⟩ := timestamp_rt legacy _ (Or.inl ⟨m, tz, rfl⟩) h'
+      exact ⟨e, by simpa [Encode.byType] using he, by simp [Spec.argSize, hl],
+        by simpa [Decode.byType, Spec.normArg, hl] using hd rest⟩
+    case structTime s =>
+      have h' : Spec.Encodable legacy (.structTime s) := by simpa [Spec.argOK] using h
+      obtain ⟨e, he, hl, hd⟩ := timestamp_rt legacy _ (Or.inr ⟨s, rfl⟩) h'
+      exact ⟨e, by simpa [Encode.byType] using he, by simp [Spec.argSize, hl],
+        by simpa [Decode.byType, Spec.normArg, hl] using hd rest⟩
 
 end Pamqp.Proofs
